@@ -948,6 +948,9 @@ func (srv *server) init(opts ...Options) (err error) {
 		}
 		srv.queueStore[v.ClientID] = q
 		srv.offlineClients[v.ClientID] = time.Now().Add(time.Duration(v.ExpiryInterval) * time.Second)
+		// a session loaded from the persistent store starts in this process as an offline
+		// (inactive) session: resuming or terminating it decrements the gauge
+		atomic.AddUint64(&srv.statsManager.totalStats.ConnectionStats.InactiveCurrent, 1)
 
 		ua, err := srv.persistence.NewUnackStore(srv.config, v.ClientID)
 		if err != nil {
